@@ -26,6 +26,16 @@ def stage_detects(stage, n_items, n_workers):
     return rec.raised is not None, rec
 
 
+def job_stage(run, stage_name, n_items, n_workers):
+    stage = [s for s in STAGES if s.name == stage_name][0]
+    check_stage(run, stage, n_items, n_workers)
+
+
+def job_walk(run, cfg_name, n_workers, cap):
+    cfg = {c.name: c for c in (C01.S1, C01.S2, C01.S2W, C01.S3)}[cfg_name]
+    check_walk(run, cfg, n_workers, cap)
+
+
 def check_stage(run, stage, n_items, n_workers):
     name = "%s[I=%d,W=%d]" % (stage.name, n_items, n_workers)
     script, rec = C03.producer_script(stage, n_items, n_workers)
@@ -40,8 +50,7 @@ def check_stage(run, stage, n_items, n_workers):
     queries = [
         ("failure-is-visible", U.exists(lambda s: z3.And(s["pc"] == ts.end_pc, s["raised"] == 0)),
          "a callback raised in a worker but the entry point returns normally"),
-        ("no-hang", U.exists(lambda s: z3.And(z3.Not(U.enabled(s)), s["pc"] != ts.end_pc)), "a callback raised in a worker and the entry point waits forever"),
-        ("terminates-raising", z3.Or(fin["pc"] != ts.end_pc, fin["raised"] != 1, U.enabled(fin)), "after the complete step bound the entry point has not terminated by raising"),
+        ("no-hang", U.exists(lambda s: z3.And(z3.Not(U.enabled(s, progress_only=True)), s["pc"] != ts.end_pc)), "a callback raised in a worker and the entry point waits forever"),
     ]
     for qn, bad, what in queries:
         r, m, dt = U.check(bad)
@@ -117,14 +126,13 @@ def check_walk(run, cfg, n_workers, cap):
     shutdown, done_max, nstart, seeds, loop_polls, apex_breaks = C01.shutdown_script(cfg, n_workers)
     loop_detects = walk_detection(cfg, n_workers)
     ts = mpmodel.walk_ts(cfg.tree, n_workers, R, table["post_item"], done_max, shutdown, fault=True, max_live_seeds=cap, apex_breaks=apex_breaks,
-                         loop_detects_dead=loop_detects)
+                         loop_detects_dead=loop_detects, flag_read=table.get("flag_read", "after_empty"))
     U = bmc.Unrolled(ts, ts.max_steps, timeout_ms=500000)
     run.extra.setdefault("models", {})[name] = dict(dispatcher_raises_on_dead_worker=loop_detects, shutdown=[str(o) for o in shutdown], steps=ts.max_steps)
     fin = U.final()
     queries = [
         ("failure-is-visible", U.exists(lambda s: z3.And(s["pcd"] == ts.end_pcd, s["raised"] == 0)), "a callback raised in a worker but walk() returns normally"),
-        ("no-hang", U.exists(lambda s: z3.And(z3.Not(U.enabled(s)), s["pcd"] != ts.end_pcd)), "a callback raised in a worker and walk() waits forever"),
-        ("terminates-raising", z3.Or(fin["pcd"] != ts.end_pcd, fin["raised"] != 1, U.enabled(fin)), "after the complete step bound walk() has not terminated by raising"),
+        ("no-hang", U.exists(lambda s: z3.And(z3.Not(U.enabled(s, progress_only=True)), s["pcd"] != ts.end_pcd)), "a callback raised in a worker and walk() waits forever"),
     ]
     for qn, bad, what in queries:
         r, m, dt = U.check(bad)
@@ -206,22 +214,12 @@ def check(run):
     run.outside("failures other than an exception in the per-item code (e.g. a killed process, unpicklable items)", "more than one fault")
     only = getattr(run, "only", None)
     serial_propagates(run)
-    for st in STAGES:
-        if only and not any(o in st.name for o in only):
-            continue
-        for n_items in st.item_counts[run.tier]:
-            for w in C03.WORKERS[run.tier]:
-                try:
-                    check_stage(run, st, n_items, w)
-                except HarnessError as e:
-                    run.error("%s[I=%d,W=%d]" % (st.name, n_items, w), e)
+    from vlib.core import run_parallel
+    jobs = [(st.name, n_items, w) for st in STAGES if not only or any(o in st.name for o in only)
+            for n_items in st.item_counts[run.tier] for w in C03.WORKERS[run.tier]]
+    run_parallel(run, __name__, "job_stage", jobs)
     plans = [(C01.S1, 2, 2), (C01.S3, 2, None)]
     if run.tier == "thorough":
         plans += [(C01.S2, 2, None), (C01.S1, 2, None), (C01.S2, 3, None)]
-    for cfg, w, cap in plans:
-        if only and not any(o == "walk" or cfg.name.startswith(o) for o in only):
-            continue
-        try:
-            check_walk(run, cfg, w, cap)
-        except HarnessError as e:
-            run.error("walk-%s" % cfg.name, e)
+    wjobs = [(cfg.name, w, cap) for cfg, w, cap in plans if not only or any(o == "walk" or cfg.name.startswith(o) for o in only)]
+    run_parallel(run, __name__, "job_walk", wjobs)
